@@ -135,6 +135,7 @@ def build_replay_bin(scratch, overlay, pkgdir, tag="replay"):
 
 
 REPLAY_ENV = {}
+HANG_REPLAY_S = 20
 
 
 def native_replay(scratch, binpath, records, timeout=600):
@@ -331,11 +332,28 @@ class GoCheck:
             for c in t.get("cex") or []:
                 recs.append({"harness": t["harness"], "case": t["case"], "inputs": c["inputs"]})
                 meta.append((t, c))
-        outs = native_replay(self.scratch, binp, recs)
+        # termination counterexamples are replayed one by one under a wall-clock limit: reproduced = still running at the limit
+        hang = [i for i, (t, c) in enumerate(meta) if c["label"] == "terminates-within-step-budget"]
+        hang_out = {}
+        for i in hang:
+            try:
+                o = native_replay(self.scratch, binp, [recs[i]], timeout=HANG_REPLAY_S)
+                hang_out[i] = o[0]
+            except (subprocess.TimeoutExpired, Inconclusive):
+                hang_out[i] = ["VF-HANG native run still going after %d s" % HANG_REPLAY_S]
+        rest = [i for i in range(len(recs)) if i not in hang_out]
+        rest_out = native_replay(self.scratch, binp, [recs[i] for i in rest])
+        outs = [None] * len(recs)
+        for i, o in zip(rest, rest_out):
+            outs[i] = o
+        for i, o in hang_out.items():
+            outs[i] = o
         for (t, c), lines in zip(meta, outs):
             self.cex_replayed += 1
             label = c["label"]
-            if label == "uncaught-panic":
+            if label == "terminates-within-step-budget":
+                repro = any(l.startswith("VF-HANG") for l in lines)
+            elif label == "uncaught-panic":
                 repro = any(l.startswith("VF-PANIC") for l in lines)
             else:
                 repro = ("VF-ASSERT-FAIL " + label) in lines
@@ -457,10 +475,18 @@ def replay_file(prop, path, prepare=None):
             pkgs += pk2
         ov = make_overlay(sc, pkgs, extra)
         binp = build_replay_bin(sc, ov, pkgdir)
-        outs = native_replay(sc, binp, [{"harness": rec["harness"], "case": rec["case"], "inputs": rec["inputs"]}])
-        print("\n".join(outs[0]))
         lab = rec["label"]
-        if lab == "uncaught-panic":
+        try:
+            outs = native_replay(sc, binp, [{"harness": rec["harness"], "case": rec["case"], "inputs": rec["inputs"]}],
+                                 timeout=HANG_REPLAY_S if lab == "terminates-within-step-budget" else 600)
+        except (subprocess.TimeoutExpired, Inconclusive):
+            if lab != "terminates-within-step-budget":
+                raise
+            outs = [["VF-HANG native run still going after %d s" % HANG_REPLAY_S]]
+        print("\n".join(outs[0]))
+        if lab == "terminates-within-step-budget":
+            bad = any(l.startswith("VF-HANG") for l in outs[0])
+        elif lab == "uncaught-panic":
             bad = any(l.startswith("VF-PANIC") for l in outs[0])
         else:
             bad = ("VF-ASSERT-FAIL " + lab) in outs[0]
